@@ -253,7 +253,7 @@ def read (s : St) : Res (List UInt8 × St) :=
           (copyLoop toCopy start s []) >>= fun r => .ok (r.2.reverse, r.1)
       | _, _ => .ok ([], s)
 
-def dec : Dec := { σ := St, init := init, read := read }
+def dec : Dec := { σ := St, init := init, read := read, src := fun s => s.bits.src }
 
 end Pm2
 
@@ -463,7 +463,7 @@ def read (s : St) : Res (List UInt8 × St) :=
     let s := { s with bits := c.2 }
     if c.1 = some 0 then readCopyCommand s else readByteBlock s row
 
-def dec : Dec := { σ := St, init := init, read := read }
+def dec : Dec := { σ := St, init := init, read := read, src := fun s => s.bits.src }
 
 end Pm1
 end LhasaV
